@@ -5,18 +5,19 @@ CONSTANTS
   StaleRule = "impl"
   LabelsOf <- MCLabels
   CanonIds <- MCCanon13
-  MaxTime = 5
+  MaxTime = 4
   Pick <- PickAll
+  NoTies <- SwapTies
   KnownGaps = {}
-  Variants = {"L1", "L1e", "L2", "Lbad"}
-  Variants2 = {"L2", "Lnone"}
+  Variants = {"L1"}
+  Variants2 = {}
   StartOffs = {0, 2, 3, 4}
   EndOffs = {0, 2, 3, 4, 6}
   FixedStart <- Unset
   MaxBatch = 2
   SameInstant = TRUE
-  Ops = {"post1", "post2", "gc", "tickgc", "tick", "get"}
-VIEW View
+  Ops = {"post1", "postdup", "gc", "tickgc", "tick"}
+VIEW ViewSwap
 INVARIANTS WellFormed
-PROPERTIES BestEffort StartRule TimeoutRule PastEndResolves SubmissionOrder OnlyResolvedCollected GCCollects RefusalCounted
+PROPERTIES SubmissionOrder
 CHECK_DEADLOCK FALSE
